@@ -774,7 +774,20 @@ func pureTextBody(c *core.Ctx, fn *ssa.Function, depth int, onStack map[*ssa.Fun
 					case "String", "Error", "Name", "Kind", "Elem", "PkgPath":
 						continue
 					}
-					return false
+					// a style / strategy object behind an internal interface: every implementation must be such a function
+					impls := core.SeamAll(com)
+					if g := core.Seam(com); g != nil {
+						impls = []*ssa.Function{g}
+					}
+					if len(impls) == 0 {
+						return false
+					}
+					for _, g := range impls {
+						if !c.InScope(g) || !pureTextBody(c, g, depth+1, onStack) {
+							return false
+						}
+					}
+					continue
 				}
 				cal := com.StaticCallee()
 				if cal == nil {
